@@ -26,8 +26,8 @@ CHECKS = {
   note="Header-name lists of the database crate are inputs to the reference; ambiguous sub-domains (LF-only heads, repeated Cookie, odd q-values, case variants' optional marks) are unjudged.",
   design="6 C05"),
  "C06": dict(
-  technique="runtime oracle: print/parse round-trip over the enumerated vocabulary + independent line-oriented reader of p0f text (p0fref.rs) + fault injection; deviation models for four known findings",
-  text="Exploration: ~9e6 (quick) / ~4.4e8 (thorough) judged items: every TTL/window/option/quirk form incl. all 65536 Distance pairs and layouts of length 0..40 round-trips value->text->value and line->value->line, all 298 bundled sig lines re-print identically, the bundled and 1e5 (quick) generated database texts load to exactly the content the reference reader sees (sections, labels, order, MTU groups, classes, ua_os), and ~130 single-fault texts must be rejected. Held = only the four listed known-finding deviations observed.",
+  technique="runtime oracle: print/parse round-trip over the enumerated vocabulary + independent line-oriented reader of p0f text (p0fref.rs) + fault injection",
+  text="Exploration: ~9e6 (quick) / ~4.4e8 (thorough) judged items: every TTL/window/option/quirk form incl. all 65536 Distance pairs and layouts of length 0..40 round-trips value->text->value and line->value->line, all 298 bundled sig lines re-print identically, the bundled and 1e5 (quick) generated database texts load to exactly the content the reference reader sees (sections, labels, order, MTU groups, classes, ua_os), and ~130 single-fault texts must be rejected. Held = no difference.",
   note="Label Display round-trip and trailing junk after classes=/ua_os= are outside the judged domain.",
   design="6 C06"),
  "C08": dict(
